@@ -433,3 +433,21 @@ func itoa(n int) string {
 	}
 	return s
 }
+
+// SyntheticEBB builds a Byron epoch-boundary block [header, [stakeholder ids], extra]
+// with n stakeholder ids and m elements in the trailing `extra` list.
+func SyntheticEBB(n, m int) *vh.Item {
+	h32 := make([]byte, 32)
+	hdr := vh.A(vh.U(764824073), vh.B(h32), vh.B(h32), vh.A(vh.U(5), vh.A(vh.U(0))), vh.A(vh.M()))
+	body := &vh.Item{K: vh.KArr, F: vh.MinForm(uint64(n))}
+	for i := 0; i < n; i++ {
+		id := make([]byte, 28)
+		id[0] = byte(i)
+		body.Xs = append(body.Xs, vh.B(id))
+	}
+	extra := &vh.Item{K: vh.KArr, F: vh.MinForm(uint64(m))}
+	for i := 0; i < m; i++ {
+		extra.Xs = append(extra.Xs, vh.M())
+	}
+	return vh.A(hdr, body, extra)
+}
